@@ -95,7 +95,7 @@ fn get_code(is_err: bool) -> ⟦(r: ⟧i32⟦)⟧
 }
 //!end
 
-//!fn src/api/cli.rs handle_run rules=R1,R10,R15,R21 props=C14,C06
+//!fn src/api/cli.rs handle_run rules=R1,R10,R15,R21 props=C14,C06,C12
 async fn handle_run<'a>(
     config: &'a core::Config,
     matches: &'a ArgMatches,
@@ -104,7 +104,9 @@ async fn handle_run<'a>(
  Tracked(w): Tracked<&mut World>) -> ⟦(res: ⟧Result<i32, MonorailError>⟦)⟧
 @    ensures
 @        // C14: nothing is executed or modified unless the lock was acquired (and is still held when the work starts)
-@        final(w).effects > old(w).effects ==> final(w).lock_held, // [C14]
+@        // (C12: the slot arithmetic and the order store-then-advance are stated for one run at a time; the lock is what makes runs on one
+@        // repository take turns, so a run that does not hold it for its whole duration voids them)
+@        final(w).effects > old(w).effects ==> final(w).lock_held, // [C14,C12]
 @        final(w).effects <= old(w).effects + 1,
 @        // C06: exit status 1 iff the run reports failed, else 0
 @        res matches Ok(code) ==> code == 0 || code == 1, // [C06]
